@@ -8,6 +8,7 @@ import FurikoModel.Driver.IndexesD
 import FurikoModel.Driver.JcStatusD
 import FurikoModel.Driver.TaskfnD
 import FurikoModel.Driver.JobCtlD
+import FurikoModel.Driver.MutationD
 open Furiko Furiko.Driver
 
 structure DState where
@@ -42,6 +43,7 @@ def step (s : DState) (line : String) : DState × String :=
       let (c, o) := configStep s.config t
       ({ s with config := c }, o)
     else if op.startsWith "opt." then (s, optionsStep t)
+    else if op.startsWith "adm." then (s, mutationStep t)
     else if op.startsWith "idx." then
       let (c, o) := idxStep s.idx t
       ({ s with idx := c }, o)
